@@ -6,6 +6,10 @@
 
 pub const HEADER: usize = 48;
 pub const SPEC: u16 = 0x1507;
+pub const FMT_RAW: u16 = 0;
+pub const FMT_BEVE: u16 = 1;
+pub const FMT_JSON: u16 = 2;
+pub const FMT_UTF8: u16 = 3;
 
 #[derive(Clone, Copy, Debug, PartialEq, Eq, Default, Hash)]
 pub struct Hdr {
